@@ -360,6 +360,10 @@ fn slice_item_mut_unchecked<'a, T>(data: &mut &'a mut [T], offset: usize) -> (r:
 }
 
 impl<'a, T> SurfaceMutIter<'a, T> {
+    pub closed spec fn g_index(&self) -> usize { self.index }
+    pub closed spec fn g_shape(&self) -> Shape { self.shape }
+    pub closed spec fn g_data(&self) -> Seq<T> { self.data@ }
+
     //@ fn impl<'a, T: 'a> Iterator for SurfaceMutIter<'a, T> :: nth ret=r
     //@+ requires
     //@+     exists|win: Win| rep(old(self).shape, win, old(self).data@.len()),
@@ -373,6 +377,29 @@ impl<'a, T> SurfaceMutIter<'a, T> {
     //@subst N5 associated type of the dropped trait impl spelled out /Self::Item/&'a mut T/
     //@subst N8 raw-pointer element access replaced by a call whose precondition is the safety condition /let ptr = self\.data\.as_mut_ptr\(\);\s*let item = unsafe \{ &mut \*ptr\.add\(offset\) \};/let item = slice_item_mut_unchecked(&mut self.data, offset);/
     //@proof after:/let\spos\s=/ proof { let w0 = choose|win: Win| rep(old(self).shape, win, old(self).data@.len()); lemma_offset(self.shape, w0, self.data@.len(), pos); }
+}
+
+// ---------------------------------------------------------------- the base case: an owned surface satisfies the invariant
+//@ item struct SurfaceOwned
+//@subst N1 derive(Clone) dropped (T is an arbitrary item type) /#\[derive\(Clone\)\]//
+impl<T> SurfaceOwned<T> {
+    pub closed spec fn g_shape(&self) -> Shape { self.shape }
+    pub closed spec fn g_data(&self) -> Seq<T> { self.data@ }
+
+    //@ fn impl<T> SurfaceOwned<T> :: new_with ret=r
+    //@+ requires
+    //@+     size.height * size.width <= isize::MAX,
+    //@+     forall|p: Position| f.requires((p,)),
+    //@+ ensures
+    //@+     r.g_data().len() == size.height * size.width,
+    //@+     rep(r.g_shape(), full_win(size.height as nat, size.width as nat), r.g_data().len()),
+    //@subst N5 `Shape::from(size)` routed to the re-homed `impl From<Size> for Shape` /Shape::from\(size\)/Shape::from_size(size)/
+    //@loop 1 invariant
+    //@loop 1     data@.len() == row * size.width, size.height * size.width <= isize::MAX, forall|p: Position| f.requires((p,)),
+    //@loop 2 invariant
+    //@loop 2     data@.len() == row * size.width + col, row < size.height, size.height * size.width <= isize::MAX, forall|p: Position| f.requires((p,)),
+    //@proof before:/for\srow\sin/ proof { assert(0 * size.width == 0) by (nonlinear_arith); }
+    //@proof loop1.end proof { assert((row + 1) * size.width == row * size.width + size.width) by (nonlinear_arith); }
 }
 
 // ---------------------------------------------------------------- SurfaceMut: writes stay inside the window (frame)
@@ -408,6 +435,18 @@ pub trait SurfaceMut: Surface {
     //@loop 2     rep(shape, old(self).win(), data@.len()),
     //@loop 2     frame(shape, old(self).win(), old(self).spec_data(), data@),
     //@proof loop2.start proof { let p = Position { row, col }; lemma_offset(shape, old(self).win(), data@.len(), p); assert(is_win_offset(shape, old(self).win(), spec_offset(shape, p))); }
+
+    //@ fn trait SurfaceMut: Surface :: view_mut ret=r
+    //@+ requires rep(old(self).spec_shape(), old(self).win(), old(self).spec_data().len()),
+    //@+ ensures
+    //@+     r.g_data() == old(self).spec_data(),
+    //@+     rep(r.g_shape(), view_win(old(self).win(), rows.spec_bounds(old(self).spec_shape().height), cols.spec_bounds(old(self).spec_shape().width)), old(self).spec_data().len()),
+
+    //@ fn trait SurfaceMut: Surface :: as_mut ret=r
+    //@+ ensures r.g_data() == old(self).spec_data(), r.g_shape() == old(self).spec_shape(),
+
+    //@ fn trait SurfaceMut: Surface :: iter_mut ret=r
+    //@+ ensures r.g_index() == 0, r.g_shape() == old(self).spec_shape(), r.g_data() == old(self).spec_data(),
 
     //@ fn trait SurfaceMut: Surface :: clear
     //@+ requires rep(old(self).spec_shape(), old(self).win(), old(self).spec_data().len()),
@@ -483,6 +522,44 @@ impl Layout {
     //@+                       range_spec(self.g_pos().col, (self.g_pos().col + self.g_size().width) as usize, surf.g_shape().width)), surf.g_data().len()),
     //@subst N19 alias `TerminalSurface<'a>` (= SurfaceMutView<'a, Cell>) expanded with the cell type abstracted to a parameter /pub fn apply_to<'a>\(&self, surf: TerminalSurface<'a>\) -> \(r: TerminalSurface<'a>\)/pub fn apply_to<'a, T>(&self, surf: SurfaceMutView<'a, T>) -> (r: SurfaceMutView<'a, T>)/
 }
+
+// ---------------------------------------------------------------- the real impls of the two required methods
+// (bodies extracted verbatim; they discharge the trait contracts `r == spec_shape()` / `r@ == spec_data()`, so the
+// default methods proved above apply to these types - the trait contract is inhabited, not vacuous)
+impl<T> Surface for SurfaceOwned<T> {
+    type Item = T;
+    closed spec fn spec_shape(&self) -> Shape { self.shape }
+    closed spec fn spec_data(&self) -> Seq<T> { self.data@ }
+    // an owned surface is the whole root matrix (depends on the shape only, hence unchanged by writes to the data)
+    closed spec fn win(&self) -> Win { full_win(self.shape.height as nat, self.shape.width as nat) }
+    //@ fn impl<T> Surface for SurfaceOwned<T> :: shape ret=r
+    //@ fn impl<T> Surface for SurfaceOwned<T> :: data ret=r
+    //@subst N5 associated type spelled out /Self::Item/T/
+}
+impl<T> SurfaceMut for SurfaceOwned<T> {
+    //@ fn impl<T> SurfaceMut for SurfaceOwned<T> :: data_mut ret=r
+    //@subst N5 associated type spelled out /Self::Item/T/
+}
+impl<'a, T: 'a> Surface for SurfaceView<'a, T> {
+    type Item = T;
+    closed spec fn spec_shape(&self) -> Shape { self.shape }
+    closed spec fn spec_data(&self) -> Seq<T> { self.data@ }
+    closed spec fn win(&self) -> Win { choose|w: Win| rep(self.shape, w, self.data@.len()) }
+    //@ fn impl<'a, T: 'a> Surface for SurfaceView<'a, T> :: shape ret=r
+    //@ fn impl<'a, T: 'a> Surface for SurfaceView<'a, T> :: data ret=r
+    //@subst N5 associated type spelled out /Self::Item/T/
+}
+impl<'a, T: 'a> Surface for SurfaceMutView<'a, T> {
+    type Item = T;
+    closed spec fn spec_shape(&self) -> Shape { self.shape }
+    closed spec fn spec_data(&self) -> Seq<T> { self.data@ }
+    closed spec fn win(&self) -> Win { choose|w: Win| rep(self.shape, w, self.data@.len()) }
+    //@ fn impl<'a, T: 'a> Surface for SurfaceMutView<'a, T> :: shape ret=r
+    //@ fn impl<'a, T: 'a> Surface for SurfaceMutView<'a, T> :: data ret=r
+    //@subst N5 associated type spelled out /Self::Item/T/
+}
+// (`impl SurfaceMut for SurfaceMutView`: not under contract - its window is only known through `choose`, which Verus
+// cannot show stable across the returned `&mut [T]`; forwarding impls stay in the trusted base)
 
 proof fn lemma_divmod(n: int, w: int, h: int)
     requires 0 <= n, 0 < w, 0 <= h,
